@@ -160,7 +160,7 @@ def gen(rng, tier):
     def pick_key():
         return rng.choice(eng) if rng.random() < 0.75 else rng.randrange(nk)
 
-    nscripts = 700 if tier == "quick" else 12000
+    nscripts = 2000 if tier == "quick" else 30000
     for it in range(nscripts):
         s = S()
         kind = it % 7
